@@ -75,3 +75,39 @@ package tars
 //@   loop 1 invariant s != nil && s.app != nil && s.dispatcher != nil && s.ndisp == 1
 //@   loop 1 invariant err == s.dispErr && (istype(s.dispErr, "*Error") ==> cast(s.dispErr, "*Error") != nil)
 //@   safety [C05]
+//
+// ------------------------------------------------------------------ endpoint health (property C15)
+// Step relations of the health record of one endpoint. Ghost field gnow = the time stamp the step read.
+// Representation invariant: lastFailCount <= failCount (both are incremented together; a success resets
+// only the consecutive counter; reset() zeroes both).
+//
+//@ func (*AdapterProxy).failAdd
+//@   requires c != nil && c.lastFailCount <= c.failCount && c.failCount < 2147483647
+//@   modifies c.lastFailCount, c.failCount
+//@   ensures [C15] c.lastFailCount == old(c.lastFailCount) + 1 && c.failCount == old(c.failCount) + 1 && c.lastFailCount <= c.failCount
+//@   safety [C15]
+//
+//@ func (*AdapterProxy).successAdd
+//@   requires c != nil && c.lastFailCount <= c.failCount && c.failCount >= 0
+//@   modifies c.lastSuccessTime, c.successCount, c.lastFailCount
+//@   ensures [C15] c.lastFailCount == 0 && c.lastFailCount <= c.failCount
+//@   safety [C15]
+//
+//@ func (*AdapterProxy).reset
+//@   requires c != nil
+//@   modifies c.sendCount, c.successCount, c.failCount, c.lastFailCount, c.lastBlockTime, c.lastCheckTime, c.lastKeepAliveTime, c.status
+//@   ensures [C15] c.status && c.failCount == 0 && c.lastFailCount == 0 && c.sendCount == 0 && c.successCount == 0
+//@   safety [C15]
+//
+//@ func (*AdapterProxy).checkActive
+//@   requires c != nil && c.tarsClient != nil && c.lastFailCount <= c.failCount
+//@   requires c.lastSuccessTime >= 0 && c.lastBlockTime >= 0 && c.lastCheckTime >= 0
+//@   modifies c.status, c.lastBlockTime, c.gnow
+//@   site Unix#0 ghostafter c.gnow = $ret
+//@   ensures [C15] c.closed ==> (!firstTime && !needCheck && c.status == old(c.status))
+//@   ensures [C15] (old(c.status) && !c.status) ==> (firstTime && old(c.failCount) >= overN)
+//@   ensures [C15] firstTime ==> (old(c.status) && !c.status)
+//@   ensures [C15] (!c.closed && old(c.status) && old(c.lastFailCount) >= fainN && c.gnow - old(c.lastSuccessTime) >= failInterval) ==> (!c.status && firstTime)
+//@   ensures [C15] needCheck ==> (!old(c.status) && c.gnow - old(c.lastBlockTime) >= tryTimeInterval && c.lastBlockTime == c.gnow)
+//@   ensures [C15] !old(c.status) ==> (!c.status && !firstTime)
+//@   safety [C15]
